@@ -26,6 +26,10 @@ import (
 
 // WriteRawMessageContents writes the given message contents to the given writer.
 func WriteRawMessageContents(contents *conformancev1.MessageContents, writer io.Writer) error {
+	if contents == nil {
+		// no payload given, so nothing to write
+		return nil
+	}
 	var msgBytes []byte
 	switch data := contents.Data.(type) {
 	case nil:
